@@ -51,6 +51,18 @@ CLAIMED = {
              "128-bit deposits/reserves and all tolerances; tied to the real guard by boundary-searched differential cases.  System level "
              "(reserves net of the native deposit) via the world family.",
         design_ref="DESIGN.md section 8 (C15)"),
+    "C16": dict(
+        text="Coq theorems C16_sym, C16_inj (key equality => same unordered set over any prefix-free identifier universe), C16_refuted (KF-key-concat witness), "
+             "C16_same_asset_rejected, C16_duplicate_rejected, C16_create_lookup and C16_hist (any history of creation attempts: created sets resolve in either order "
+             "to their own record, all others to nothing) over the storage-level model of pair_key/PAIRS; tied to the real pair_key and PAIRS map on MockStorage.  "
+             "PARTIAL: record = pair self-description, true decimals and live-asset checks need the world model.",
+        design_ref="DESIGN.md section 8 (C16), section 9"),
+    "C19": dict(
+        text="Coq theorems C19_page, C19_walk (for every sorted registry with records under their own keys and every page size >= 1 or absent, the client walk's pages "
+             "concatenate to exactly the registered entries and the next page is empty; induction over the unbounded list), C19_no_duplicates, C19_page_size, "
+             "C19_default_page, C19_insert_sorted over the model of read_pairs/calc_range_start; tied to the real read_pairs on MockStorage with full walks and "
+             "every-cursor pages.  The defect found here was repaired in /repo (fix: aa4409b).",
+        design_ref="DESIGN.md section 8 (C19), section 9"),
 }
 for _v in CLAIMED.values():
     _v.setdefault("technique", TECH)
